@@ -483,9 +483,29 @@ def gen_abstract(rng):
             m = "c%d() { return %d; }" % (i, i + 30)
             members_ts.append(acc + m)
             members_js.append(m)
+        # other members that emit nothing (a declared field, an overload signature, an index signature) ...
+        if rng.random() < 0.35:
+            members_ts.append(rng.choice(["declare d%d: number;" % i, "o%d(a: number): number; o%d(a: any) { return a; }" % (i, i)] + ([] if "[k: string]: any;" in members_ts else ["[k: string]: any;"])))
+            if members_ts[-1].startswith("o%d" % i):
+                members_js.append("o%d(a) { return a; }" % i)
+                members_ts[-1], extra = members_ts[-1].split("; ", 1)
+                members_ts[-1] += ";"
+            else:
+                extra = None
+            if extra is None and rng.random() < 0.6:        # (an overload signature must be followed by its implementation)
+                sb = "static { sbLog.push('t%d'); }" % i
+                members_ts.append(sb); members_js.append(sb)
+            if extra:
+                members_ts.append(extra)
+        # ... and static blocks, which run at class definition wherever they stand (also right after an abstract member)
+        if rng.random() < 0.45:
+            for r in range(rng.randint(1, 2)):
+                sb = "static { sbLog.push('s%d%d'); }" % (i, r)
+                members_ts.append(sb); members_js.append(sb)
     ts = "abstract class A { %s } class C extends A { %s }" % (" ".join(members_ts), " ".join(sub))
     js = "class A { %s } class C extends A { %s }" % (" ".join(members_js), " ".join(sub).replace(": number", ""))
-    obs = ("JSON.stringify([Object.getOwnPropertyNames(A.prototype).sort(), Object.getOwnPropertyNames(C.prototype).sort(), Object.keys(new C()).sort().map(k => k + '=' + (new C() as any)[k]), "
+    ts, js = "const sbLog: string[] = []; " + ts, "const sbLog = []; " + js
+    obs = ("JSON.stringify([sbLog, Object.getOwnPropertyNames(A.prototype).sort(), Object.getOwnPropertyNames(C.prototype).sort(), Object.keys(new C()).sort().map(k => k + '=' + (new C() as any)[k]), "
            "Object.getOwnPropertyNames(C.prototype).filter(k => k !== 'constructor').sort().map(k => typeof (C.prototype as any)[k] === 'function' ? (new C() as any)[k](1) : (new C() as any)[k])])")
     return ts, js, obs
 
